@@ -414,10 +414,13 @@ def genLines (fn : String) (st : Stmt) (count0 : Nat) : List Asm.Line :=
 
 abbrev Prog := List CIns
 
-/-- position of the definition of `l` (first one; `C03_labels`: there is exactly one) -/
-def findLabel (P : Prog) (l : Lbl) : Option Nat :=
-  let i := P.findIdx (· == .label l)
-  if i < P.length then some i else none
+/-- position of the definition of `l`, counted from `k` (first one; `C03_labels`: there is
+    exactly one) -/
+def findLabelFrom : Prog → Lbl → Nat → Option Nat
+  | [], _, _ => none
+  | i :: r, l, k => if i = .label l then some k else findLabelFrom r l (k + 1)
+
+def findLabel (P : Prog) (l : Lbl) : Option Nat := findLabelFrom P l 0
 
 structure MState where
   pc : Nat
